@@ -1,10 +1,8 @@
-import PlaybackModel.Codec
+import PlaybackModel.Lexer
 import Std.Data.String.ToNat
 /-! String literals are rendered injectively: `escString` (json.dumps' ESCAPE_ASCII as modelled in Codec.lean) can be decoded
 character by character, so two different strings never have the same literal text. -/
 namespace PlaybackModel.Codec
-
-def escL (c : Char) : List Char := (escChar c).toList
 
 theorem escString_toList_aux (l : List Char) : ∀ acc : String,
     (l.foldl (fun acc c => acc ++ escChar c) acc).toList = acc.toList ++ l.flatMap escL := by
@@ -16,20 +14,8 @@ theorem escString_toList (s : String) : (escString s).toList = s.toList.flatMap 
   unfold escString
   simpa using escString_toList_aux s.toList ""
 
-def hexVal (c : Char) : Option Nat :=
-  if 48 ≤ c.toNat ∧ c.toNat ≤ 57 then some (c.toNat - 48)
-  else if 97 ≤ c.toNat ∧ c.toNat ≤ 102 then some (c.toNat - 87) else none
-
 theorem hexVal_hexDigit : ∀ d, d < 16 → hexVal (hexDigit d) = some d := by decide
 
-
-/-- value of four hex digits -/
-def hex4Val : List Char → Option (Nat × List Char)
-  | a :: b :: c :: d :: rest =>
-    match hexVal a, hexVal b, hexVal c, hexVal d with
-    | some x, some y, some z, some w => some (((x * 16 + y) * 16 + z) * 16 + w, rest)
-    | _, _, _, _ => none
-  | _ => none
 
 theorem hex4_toList (n : Nat) :
     (hex4 n).toList = [hexDigit (n / 4096 % 16), hexDigit (n / 256 % 16), hexDigit (n / 16 % 16), hexDigit (n % 16)] := by
@@ -44,35 +30,6 @@ theorem hex4Val_hex4 (n : Nat) (h : n < 65536) (rest : List Char) :
   simp only [Option.some.injEq, Prod.mk.injEq, and_true]
   omega
 
-
-def simpleUnesc (y : Char) : Option Char :=
-  if y = '"' then some '"' else if y = '\\' then some '\\' else if y = 'n' then some '\n' else if y = 'r' then some '\r'
-  else if y = 't' then some '\t' else if y = 'b' then some (Char.ofNat 8) else if y = 'f' then some (Char.ofNat 12) else none
-
-/-- decode ONE character of a JSON string literal body -/
-def dec : List Char → Option (Char × List Char)
-  | [] => none
-  | x :: rest =>
-    if x = '\\' then
-      match rest with
-      | [] => none
-      | y :: rest' =>
-        if y = 'u' then
-          match hex4Val rest' with
-          | none => none
-          | some (n, r2) =>
-            if 55296 ≤ n ∧ n < 56320 then
-              match r2 with
-              | a :: b :: r3 =>
-                if a = '\\' ∧ b = 'u' then
-                  match hex4Val r3 with
-                  | some (m, r4) => some (Char.ofNat (65536 + (n - 55296) * 1024 + (m - 56320)), r4)
-                  | none => none
-                else none
-              | _ => none
-            else some (Char.ofNat n, r2)
-        else (simpleUnesc y).map (fun c => (c, rest'))
-    else some (x, rest)
 
 theorem char_eq_of_toNat (c : Char) (n : Nat) (h : c.toNat = n) : c = Char.ofNat n := by
   rw [← h, Char.ofNat_toNat]
